@@ -1,4 +1,5 @@
 mod conc;
+mod crash;
 mod store;
 
 fn main() {
@@ -6,6 +7,7 @@ fn main() {
     let code = match args.get(1).map(|s| s.as_str()) {
         Some("store") => store::main(&args[2..]),
         Some("conc") => conc::main(&args[2..]),
+        Some("crash") => crash::main(&args[2..]),
         _ => {
             eprintln!("usage: vh store [--file] < ops");
             2
